@@ -342,6 +342,10 @@ def run(repo: Repo, rep: Report, tier: str) -> None:
     from .c04 import struct_rw_fold_rule
 
     struct_rw_fold_rule(repo, rep, "C01.R16", 3 if tier == "thorough" else 2)
+    from .c09 import absolute_padding_rule
+
+    absolute_padding_rule(repo, rep, "C01.R17")
+
 
 
 
